@@ -186,6 +186,77 @@ def base_triangle(rng, vk, basis, n_slices, res=None, fields=None, n_periods=Non
     return Triangle(out)
 
 
+# ----------------------------------------------------------------------------------------------
+# assumptions of the translator that are CHECKED while the registry runs
+# ----------------------------------------------------------------------------------------------
+ASSUME_VIOLATIONS = []      # filled in the worker that runs the scenario, shipped back with its result
+SEPARATION_CHECKS = [0]
+
+
+def _value_matches(txt, v):
+    """`tuple[int, str]`: a tuple of a number and a string (the only assumed annotation in use)"""
+    if txt == "tuple[int, str]":
+        return (isinstance(v, tuple) and len(v) == 2 and isinstance(v[0], (int, float, np.integer, np.floating))
+                and not isinstance(v[0], bool) and isinstance(v[1], str))
+    return True
+
+
+def install_assumption_checks():
+    import functools
+    import inspect
+    import sys
+    for key, params in translate_c03ir.ASSUMED_ANNOTATIONS.items():
+        modname, fname = key.split(":")
+        try:
+            mod = importlib.import_module(modname)
+            orig = getattr(mod, fname)
+        except Exception:  # noqa: BLE001
+            continue
+        sig = inspect.signature(orig)
+
+        @functools.wraps(orig)
+        def checked(*a, __orig=orig, __sig=sig, __params=params, __key=key, **kw):
+            try:
+                bound = __sig.bind(*a, **kw)
+                for nme, txt in __params.items():
+                    if nme in bound.arguments and not _value_matches(txt, bound.arguments[nme]):
+                        ASSUME_VIOLATIONS.append(f"{__key}({nme}={bound.arguments[nme]!r}) is not {txt}")
+            except TypeError:
+                pass
+            return __orig(*a, **kw)
+        for m in list(sys.modules.values()):
+            if getattr(m, "__name__", "").startswith("bermuda"):
+                for attr, val in list(vars(m).items()):
+                    if val is orig:
+                        setattr(m, attr, checked)
+
+
+install_assumption_checks()
+
+
+def check_separated(args):
+    """the hypothesis `separated` of Properties/C03.frame_protected_reachable: an unprotected argument (a data
+    frame) is not a protected argument, nor an attribute / entry of one (identity of objects)"""
+    frames = [a for a in args if isinstance(a, pd.DataFrame)]
+    if not frames:
+        return None
+    SEPARATION_CHECKS[0] += 1
+    for a in args:
+        if isinstance(a, pd.DataFrame):
+            continue
+        inner = [a]
+        if isinstance(a, Metadata):
+            inner += [a.details, a.loss_details] + list(a.details.values()) + list(a.loss_details.values())
+        elif isinstance(a, (list, tuple)):
+            inner += list(a)
+        elif isinstance(a, dict):
+            inner += list(a.values())
+        for x in inner:
+            if any(x is f for f in frames):
+                return f"a data frame argument is (inside) the argument {type(a).__name__}"
+    return None
+
+
 MIXED_SAMPLES = 1024        # "bigmixed": mixed kinds with >= 1000 samples per array
 
 
@@ -918,6 +989,9 @@ class Scenario:
             return "prepare-failed", None
         for i, a in enumerate(args):
             self.remember(f"{label}.arg{i}", a)
+        sep = check_separated(list(args) + list(kwargs.values()))
+        if sep:
+            ASSUME_VIOLATIONS.append(f"{label}: not separated: {sep}")
         before = [fp(o) for _, o in self.alive]
         outcome, res, ro_hit = "returned", None, None
         try:
@@ -1011,10 +1085,13 @@ def _work(task):
     try:
         case, sc, outcome = run_scenario(mini, name, shape, position, seed, readonly)
         res = {"task": task, "fails": mini.fails, "outcome": outcome, "trace": sc.trace,
-               "shape": case["shape"], "chain": case["chain"], "crash": None}
+               "shape": case["shape"], "chain": case["chain"], "crash": None,
+               "assume": list(ASSUME_VIOLATIONS), "separated": SEPARATION_CHECKS[0]}
+        del ASSUME_VIOLATIONS[:]
+        SEPARATION_CHECKS[0] = 0
     except Exception as e:  # noqa: BLE001  -- harness-side problem, reported as infrastructure
         res = {"task": task, "fails": mini.fails, "outcome": "crash", "trace": [], "shape": None, "chain": [],
-               "crash": f"{type(e).__name__}: {str(e)[:300]}"}
+               "crash": f"{type(e).__name__}: {str(e)[:300]}", "assume": [], "separated": 0}
     cleanup_tmp()
     return res
 
@@ -1298,6 +1375,10 @@ def correspondence(ctx):
             raise common.Infra(f"C03 scenario {res['task']} crashed in the harness: {res['crash']}")
         for clause, case, detail in res["fails"]:
             ctx.fail(clause, case, detail)
+        for v in res.get("assume", [])[:3]:
+            ctx.disagree("assumption of the translator (assumed annotation / separated arguments)",
+                         {"op": name, "seed": seed}, model="holds", impl=v)
+        ctx.count("assumptions/separated_checked", res.get("separated", 0))
         outcome = res["outcome"]
         st = stats.setdefault(name, {})
         st[outcome.split(":")[0]] = st.get(outcome.split(":")[0], 0) + 1
@@ -1367,7 +1448,7 @@ def targeted_tasks(ctx, rng, names):
 def regenerate_tables():
     """both translators, under the build lock (called by common.run_check)"""
     translate_c03.regenerate()
-    translate_c03ir.regenerate()
+    translate_c03ir.regenerate(op_names=list(REGISTRY))
 
 
 def heapir_report(ctx):
@@ -1399,7 +1480,7 @@ def heapir_report(ctx):
 if __name__ == "__main__":
     common.run_check(
         "C03", module="Bermuda.Properties.C03", driver_targets=["drv_c03"],
-        correspondence=correspondence, level="translation_validation", extra_translate=regenerate_tables,
+        correspondence=correspondence, level="proof", extra_translate=regenerate_tables,
         rule="registry of public operations (Triangle/Cell API, bermuda.utils, io writers to temp files + readers, "
              "build_plot_data, plot_*) x 4 of the 12 argument shapes (scalar/array x cumulative/incremental x 1-3 slices) "
              "x chain position 0/1/2 (thorough: x20, random chains up to 8 links) x {plain, read-only arrays}; deep "
@@ -1410,7 +1491,9 @@ if __name__ == "__main__":
         trusted=["fingerprint = class, dates, metadata repr (dict order), key order, value type, dtype, shape, bytes",
                  "harness/translate_c03.py (accumulator patterns from the AST, regenerated under the build lock each run)",
                  "harness/translate_c03ir.py: Python AST -> HeapIR (Generated/HeapIR*.lean, regenerated each run); its tables "
-                 "of library summaries (pure results by kind, writers, write keywords), the purity of callbacks, "
-                 "immutable-annotation rule, caller-performed return of parameters and the four REVIEWED_PURE functions "
-                 "are listed in the notes of the evidence ('HeapIR trusted summaries')"],
+                 "of library summaries (pure results by kind, writers, write keywords), the purity of callbacks, the "
+                 "annotation rules (immutable / container of immutables / pd.DataFrame unprotected; 2 assumed "
+                 "annotations checked at run time), the boxed representation of attributes, caller-side construction by "
+                 "simple constructors and caller-performed return of parameters are listed in the notes of the "
+                 "evidence ('HeapIR trusted summaries'); PARTIAL: the theorems are about the IR programs"],
     )
